@@ -25,5 +25,6 @@ def strict_errors(text: str):
     parser = UVLPythonParser(CommonTokenStream(lexer))
     parser.removeErrorListeners()
     parser.addErrorListener(pl)
-    parser.featureModel()
+    tree = parser.featureModel()
+    strict_errors.no_features = tree.features() is None
     return ll.errors, pl.errors
